@@ -114,6 +114,23 @@ theorem fgbgReset_effect {rw} {t : Term} (g : Good rw t) :
   have e : t.feed resetStd = (t.sgr [[some 39]]).sgr [[some 49]] := by simpa [resetStd] using h
   rw [e]; simp [sgr, applySgr, sgrSimple, withPen]
 
+/-- the three `op` forms: the pen's colours become `opSel` -/
+theorem opAix_effect {rw} {t : Term} (g : Good rw t) :
+    t.feed opAix = withPen t { t.pen with fg := .idx 2, bg := .idx 0 } := by
+  show t.feed (csiSeq (dec (30 + 2)) 0x6d ++ csiSeq (dec (40 + 0)) 0x6d) = _
+  rw [← feed_append, sgr_fg_idx_effect t g.st 2 (by omega),
+    sgr_bg_idx_effect ({ t with pen := { t.pen with fg := .idx 2 } } : Term) g.st 0 (by omega)]
+  rfl
+
+theorem opPc_effect {rw} {t : Term} (g : Good rw t) :
+    t.feed opPc = withPen t { t.pen with fg := .idx 7, bg := .idx 0 } := by
+  have h := sgr_two_effect t g.st 37 40 (by omega)
+  have d0 : dec 37 = [51, 55] := by decide
+  have d1 : dec 40 = [52, 48] := by decide
+  simp only [csiSeq, d0, d1, List.cons_append, List.nil_append] at h
+  have e : t.feed opPc = (t.sgr [[some 37]]).sgr [[some 40]] := by simpa [opPc] using h
+  rw [e]; simp [sgr, applySgr, sgrSimple, withPen]
+
 theorem hide_effect {rw} {t : Term} (g : Good rw t) :
     t.feed hideStd = { t with modes := { t.modes with cursorVisible := false } } := by
   have := decrst_effect t g.st 25
@@ -147,7 +164,7 @@ structure TiFacts (ti : Terminfo) : Prop where
   dim : ti.dim = [] ∨ stripPadding ti.dim = sgr1 2
   italic : ti.italic = [] ∨ stripPadding ti.italic = sgr1 3
   strike : ti.strikeThrough = [] ∨ stripPadding ti.strikeThrough = sgr1 9
-  col : ((palKind ti).isSome = true ∧ ti.resetFgBg = resetStd) ∨ monoOk ti = true
+  col : ((palKind ti).isSome = true ∧ ti.resetFgBg ∈ opForms) ∨ monoOk ti = true
   fRGB : ti.setFgRGB = [] ∨ ti.setFgRGB = setfRGB
   bRGB : ti.setBgRGB = [] ∨ ti.setBgRGB = setbRGB
   fbRGB : ti.setFgBgRGB = [] ∨ ti.setFgBgRGB = setfbRGB
@@ -167,7 +184,7 @@ theorem tiFacts {ti : Terminfo} (h : XtermLike ti = true) : TiFacts ti := by
     by simpa using a17, by simpa using a18⟩
   · simp only [List.any_eq_true, beq_iff_eq] at a1; exact a1
   · simp only [Bool.or_eq_true, Bool.and_eq_true, beq_iff_eq, List.contains_eq_mem, decide_eq_true_eq] at a4; exact a4
-  · simp only [Bool.or_eq_true, Bool.and_eq_true, beq_iff_eq] at a12; exact a12
+  · simp only [Bool.or_eq_true, Bool.and_eq_true, beq_iff_eq, List.contains_eq_mem, decide_eq_true_eq] at a12; exact a12
 
 /-- the conjuncts of `dOk` -/
 structure DFacts (d : Derived) : Prop where
